@@ -3,7 +3,7 @@
 WriteToConn). If the client goes away before the reply (Ctrl-C during a check), the write raises
 BrokenPipeError inside the command; only the FINAL send is protected by `except OSError: pass`, so the daemon
 reports a crash to nobody and exits.
-key: daemon-died:on-faulty-connection:PeerClosedError@ipc.py:write_bytes
+key: daemon-died:on-faulty-connection:PeerClosedError@ipc.py:write_bytes:via=run_command
 
 Standalone: /venv/bin/python verbose_daemon_dies_on_client_hangup.py   (VERIF_REPO=<dir> to test another checkout)
 exit 1 = defect present, 0 = absent, 2 = could not run."""
